@@ -87,6 +87,9 @@ def rand_node(rng):
         return [tok], ("int", v)
     if r < 0.6:
         f = rand_double(rng)
+        if f == f and abs(f) != math.inf and rng.random() < 0.3:
+            # a double that carries its source text (what the parser and json_object_new_double_s create)
+            return ["D%016x:%s" % (dbits(f), ("%.17g" % f).encode().hex())], ("double", f)
         return ["d%016x" % dbits(f)], ("double", f)
     if r < 0.88:
         s = rand_numstring(rng)
@@ -195,6 +198,9 @@ def shard_fn(shard, nshards, seed, tier, exe, ncases):
             toks = ["s" + first.hex()]
             pre = [("SSTRZ" if b"\0" not in node[1] and rng.random() < 0.3 else "SSTR") + " 0 x" + node[1].hex()]
             sh.count("string_nodes_set_after_creation." + ("grown" if len(node[1]) > len(first) else "shrunk_or_same"))
+        if node[0] == "double" and node[1] == node[1] and rng.random() < 0.3:
+            # first mutation: a value that compares equal to the current one but is another double (the other zero), or its neighbour
+            ops.insert(0, ("SET", "dbl", -node[1] if node[1] == 0 else from_bits(dbits(node[1]) ^ 1)))
         cmds = ["B 0 " + " ".join(toks)] + pre + ["NUM 0"]
         for op in ops:
             if op[0] == "INC":
